@@ -86,7 +86,7 @@ func genLeaf(r *core.Rand, ncells int, vlen func(i int) int, tomb uint, flags in
 }
 
 func checkC12(c *core.Ctx) []core.Floor {
-	c.Rule = "nodes built with the engine's own primitives (sorted insert, split halves, updateCell, tombstone, markDirty, sibling links): leaves with every cell count 0-9, value lengths over 0..400 (all 401 in thorough, boundaries + sampled in quick), every tombstone mask for <= 6 cells, all four sibling-flag combinations, LSN in {0,1,2^32,2^64-1}; internal nodes with 0-290 cells and child offsets up to 2^40; both halves straight out of split. For each node: the encoding must be exactly 4096 bytes; decode(encode(n)), decode(encode(decode(encode(n)))) and a write through one fileStore + read through a second, cold fileStore must all have the same logical content as n. Plus real pages: in histories with a flush after every statement every clean cached node is compared with the page decoded from the file, and no flush may fail (one history in four also runs a queue table: rows appended at the tail, the oldest deleted, so that the rightmost leaf collects tombstones while it is still being inserted into). Distinct = node spec; non-trivial = the node has at least one cell."
+	c.Rule = "nodes built with the engine's own primitives (sorted insert, split halves, updateCell, tombstone, markDirty, sibling links): leaves with every cell count 0-9, value lengths over 0..400 (all 401 in thorough, boundaries + sampled in quick), every tombstone mask for <= 6 cells, all four sibling-flag combinations, LSN in {0,1,2^32,2^64-1}; internal nodes with 0-290 cells and child offsets up to 2^40; both halves straight out of split. For each node: the encoding must be exactly 4096 bytes; decode(encode(n)), decode(encode(decode(encode(n)))) and a write through one fileStore + read through a second, cold fileStore must all have the same logical content as n; half of the nodes are processed by four goroutines side by side, each with its own nodes and store files (several open databases flushing at the same moment). Plus real pages: in histories with a flush after every statement every clean cached node is compared with the page decoded from the file, and no flush may fail (one history in four also runs a queue table: rows appended at the tail, the oldest deleted, so that the rightmost leaf collects tombstones while it is still being inserted into). Distinct = node spec; non-trivial = the node has at least one cell."
 	c.Assume = []string{"only shapes the engine's primitives produce with ascending keys are judged", "byte layout of the free gap is not compared, only logical content"}
 	drv := mustDriver(c, false)
 	r := core.NewRand(core.SubSeed(c.Seed, "C12", 0))
@@ -227,7 +227,15 @@ func checkC12(c *core.Ctx) []core.Floor {
 		dir := c.CaseDir("c12")
 		defer removeAll(dir)
 		b, _ := json.Marshal(specs[lo:hi])
-		out := core.RunScript(drv, dir, []proto.Op{{K: "node", Raw: b}}, 120*time.Second)
+		// every other chunk is worked on by four goroutines side by side
+		// (each with its own nodes and store files): what a node encodes to
+		// must not depend on what else is being encoded in the process
+		par := 0
+		if ci%2 == 1 {
+			par = 4
+			c.Count("chunks_encoded_by_four_goroutines_side_by_side", 1)
+		}
+		out := core.RunScript(drv, dir, []proto.Op{{K: "node", Raw: b, N: par}}, 120*time.Second)
 		if out.Died || out.Res[0].Failed() {
 			c.Violation("C12:process-died-or-panic", fmt.Sprintf("%s %s %s", core.FatalTail(out.Stderr), out.ExitErr, func() string {
 				if len(out.Res) > 0 {
